@@ -250,4 +250,9 @@ def gap_explained(params):
         joined = ":".join(p)
         if _GAP_VALUE.search(joined):
             return True
+        # the serializer separates parameters by a line break, so a parameter that is written as
+        # '#' + only ':', ';', '\\' characters + '#...' (empty key, value starting with '#') puts a '#'
+        # behind a line break through ':' only - the same msdparser recovery heuristic
+        if _re.match(r"[:;\\]*#", joined):
+            return True
     return False
